@@ -65,7 +65,7 @@ CLAIMS['C13'] = dict(
          'by set_source_root / set_source / set_source_contents, and get_source reads through it.',
     note=_TB + 'Arc<str> is modelled as an immutable string value (prelude/arc_str.rs); FxHashMap is replaced by std HashMap (hasher abstracted); tables are assumed to '
          'hold fewer than 2^32-16 entries (ids are len() as u32); generic setters are verified for the instantiation T = Arc<str> (R-mono). The "serialisation writes '
-         'raw names plus root" clause lives with C03/C01 (as_raw_sourcemap).',
+         'raw names plus root" clause is the `sources` / `sourceRoot` part of raw_of_regular, proved for SourceMap::as_raw_sourcemap in u22_encode (the sources come from the raw table, never from the prefixed cache).',
     design_ref='DESIGN.md 5 C13')
 
 CLAIMS['C03'] = dict(
@@ -73,7 +73,9 @@ CLAIMS['C03'] = dict(
          "map's token list: ';' per line advanced, ',' between segments, per-line column reset, running source/line/column/name deltas, 1/4/5 fields, exact "
          'consecutive duplicates dropped (spec/mappings_enc.rs, written from the format); and "an independent decoder reads it back": the reference reader '
          '(spec/mappings_dec.rs, an independent reading of the format) applied to the reference string returns the token list without exact consecutive duplicates '
-         '(lemma_mappings_roundtrip, u15_inverse). PARTIAL: the field plumbing of as_raw_sourcemap and the serde attributes are bounded only (raw_keys).',
+         '(lemma_mappings_roundtrip, u15_inverse); and that the raw document (u22_encode: as_raw_sourcemap of SourceMap / SourceMapIndex / SourceMapHermes / DecodedMap) has version 3, that string under "mappings", '
+         'the map\'s raw sources, names, root, file, ignore list, debug id and contents under their keys, None (no key) for each of the last five without a value, and for an index map one entry per section with its offset object, '
+         'url and, recursively, the embedded map\'s document. PARTIAL: that serde writes a None field as no key (skip_serializing_if) is bounded only (raw_keys).',
     note=_TB + 'Requires the map invariant "tokens sorted" (proved for every constructor in C04). serde_json writing the string faithfully is assumed.',
     design_ref='DESIGN.md 5 C03')
 CLAIMS['C01'] = dict(
@@ -81,8 +83,10 @@ CLAIMS['C01'] = dict(
          'reading (u4_decode), and the reference reading of the reference encoding of a sorted, well-formed token list is that list without exact consecutive duplicates, token '
          'by token equivalent -- generated position, source, name, range flag given matching range bits, original position where there is a source (lemma_mappings_roundtrip / '
          '_with_ranges in u15_inverse, by induction over the tokens through the split structure of the string; the VLQ layer by the C11 inverse lemmas); raw sources + root are '
-         'what the map stores and re-derives (C13 cache invariant); the tail of decode_regular builds the map from the decoded parts (u10_tail). PARTIAL: as_raw_sourcemap '
-         'field plumbing and serde_json are outside the contracts (bounded stand-in roundtrip).',
+         'what the map stores and re-derives (C13 cache invariant); the tail of decode_regular builds the map from the decoded parts (u10_tail); and the raw document itself (u22_encode): the as_raw_sourcemap impls of SourceMap, SourceMapIndex '
+         '(recursively through nested maps, by a closure that calls the encoder on each section), SourceMapHermes and the DecodedMap dispatch put every value of the map under its key -- raw source '
+         'names, root, names, file, debug id, ignore list, the reference "mappings" / "rangeMappings" strings, section offsets / urls / embedded documents, the Hermes metadata verbatim -- and leave out the keys without a value. '
+         'PARTIAL: the serde_json text layer and the decode_hermes wrapper are outside the contracts (bounded stand-in roundtrip).',
     note=_TB + 'serde_json (de)serialisation assumed faithful.',
     design_ref='DESIGN.md 5 C01')
 CLAIMS['C02'] = dict(
@@ -246,12 +250,12 @@ NOT_COVERED = {
             'flatten (+ off_col / + off_line overflow, design-phase defect D6), rewrite, adjust_mappings, range bitfield writer (D4), decode_hermes', 'allocation in proportion to the input; wall-clock (only termination is proved)'],
     'C08': ['agreement lookup vs flatten for index maps with NESTED index sections (the lemma covers regular and Hermes sections): bounded stand-in index_nested', 'the hypotheses of the agreement lemma are the postconditions of executed functions; no concrete witness is constructed inside Verus (Vec values cannot be built in spec code), the stand-ins index_flatten / index_nested run the real functions on such inputs', 'flatten_and_rewrite (composition of two proved functions, not itself under contract)'],
     'C14': ['decode_hermes wrapper around the function-map decoder (destructuring of the first scope mapping, collect, decode_regular): bounded stand-in hermes_scope', 'DecodedMap::get_original_function_name dispatch (line != 0 => nothing for Hermes maps): bounded', 'stability under serialise/decode (raw metadata retained): bounded'],
-    'C01': ['as_raw_sourcemap field plumbing (SourceMap / SourceMapIndex / Hermes): bounded stand-in roundtrip only', 'serde_json layer'],
+    'C01': ['the serde_json layer (writer and reader of the JSON text, serde attributes): bounded stand-in roundtrip', 'the one closure of as_raw_sourcemap that collects the contents (captures a mutable local): behind an assumed contract', 'decode_hermes (wrapper)'],
     'C02': ['the six `let` lines of decode_regular that unpack the raw document (checked textually, not verified)', 'termination of the decode_index / decode_common recursion (bounded by serde_json)', 'decode_hermes'],
-    'C03': ['as_raw_sourcemap field plumbing and the serde skip_serializing_if attributes', 'index-map documents (sections array): bounded only'],
-    'C07': ['document plumbing (as_raw_sourcemap writes the key only when a range token exists; decode_regular hands the strings to the loop): bounded stand-in rmi_roundtrip; the token-level round trip with flags is proved (lemma_document_roundtrip_with_ranges)'],
+    'C03': ['the serde skip_serializing_if attributes (that a None field writes no key): bounded stand-in raw_keys', 'the one closure of as_raw_sourcemap that collects the contents (captures a mutable local): behind an assumed contract'],
+    'C07': ['decode_regular handing the two strings to the loop (the six `let` lines) and the serde layer: bounded stand-in rmi_roundtrip; the writer side (as_raw_sourcemap puts the reference rangeMappings value under its key, none without a range token) and the token-level round trip with flags are proved'],
     'C11': ['values of magnitude >= 2^62 (13-digit overflows) are only proved panic-free'],
     'C12': ['the JSON layer and the base64 reader themselves (uninterpreted functions of the bytes; their chunking independence is assumed): bounded stand-in header runs the real ones', 'SourceView-level and writer-side entry points (to_writer, to_data_url)'],
-    'C13': ['"serialisation writes raw names plus root" (as_raw_sourcemap)'],
+    'C13': ['that serde writes the raw document\'s fields under their keys (serde attributes): bounded stand-in root_setters'],
     'C04': ['rewrite / flatten as token producers are covered through into_sourcemap / SourceMap::new (proved); adjust_mappings through its own clause ens_result_ordered_by_generated_position'],
 }
